@@ -198,9 +198,10 @@ def convolve_filter_adjoint(
 
 def _get_convolve_params(data_shape, filt_shape, mode, strides, multi_channel):
     D = len(filt_shape) - 2 * multi_channel
-    m = tuple(data_shape[-D:])
-    n = tuple(filt_shape[-D:])
-    b = tuple(data_shape[: -D - multi_channel])
+    # Python ints: shapes and strides may come as narrow NumPy integers.
+    m = tuple(int(m_d) for m_d in data_shape[-D:])
+    n = tuple(int(n_d) for n_d in filt_shape[-D:])
+    b = tuple(int(b_d) for b_d in data_shape[: -D - multi_channel])
     B = util.prod(b)
 
     if multi_channel:
@@ -224,7 +225,7 @@ def _get_convolve_params(data_shape, filt_shape, mode, strides, multi_channel):
         if len(strides) != D:
             raise ValueError("Strides must have length {}.".format(D))
 
-        s = tuple(strides)
+        s = tuple(int(s_d) for s_d in strides)
 
     if mode == "full":
         p = tuple(
